@@ -111,6 +111,13 @@ def c12_battery(binary):
           lambda r: ["--transform", "cat"], lambda r: ["--transform", "dd count=2 bs=1"], lambda r: ["--transform", "dd count=6 bs=1"],
           lambda r: ["--transform", "dd count=8 bs=1"], lambda r: ["--hash-fn", "metro"]])
 
+    # long digests: a group that mixes files served from the cache with files hashed in this run
+    def addcopy(root):
+        shutil.copy(os.path.join(root, "a.bin"), os.path.join(root, "d_copy.bin"))
+    for hf in ("sha256", "blake3", "sha512", "sha3-256"):
+        hist("new copy of a cached file, --hash-fn %s" % hf, [lambda r: two(r, data=b"L" * 70000) or ["--hash-fn", hf], lambda r: addcopy(r) or ["--hash-fn", hf],
+                                                          lambda r: ["--hash-fn", hf]])
+
     # transform whose output lengths agree while input lengths differ; warm cache, renamed file
     def tr1(root):
         open(os.path.join(root, "a.bin"), "wb").write(b"xxhello")
@@ -577,6 +584,10 @@ def c08_battery(binary):
         check("only files matching --name may be dropped", w, ["."], ["--name", "c"], ["c"], env)
         check("n = 2 inherited from the header, report order", w, ["-n", "2", "."], [], ["c"], env)
         check("--match-links inherited: every path is a replica", w, ["--match-links", "-n", "2", "."], [], ["b", "c"], env)
+        os.makedirs(os.path.join(d, "elsewhere"))
+        check("hard-link set with an --isolate root that covers none of the files (n = 2 inherited)", w, ["-n", "2", "."],
+              ["--isolate", os.path.join(d, "elsewhere")], ["c"], env)
+        check("hard-link set with an --isolate root that covers none of the files", w, ["."], ["--isolate", os.path.join(d, "elsewhere")], ["b", "c"], env)
         # C: priorities
         w = os.path.join(d, "C")
         os.makedirs(os.path.join(w, "deep", "er"))
@@ -651,10 +662,15 @@ def c04_battery(binary):
                     inv[p] = open(p, "rb").read()
         return inv
 
-    for tz in ("UTC", "Asia/Tokyo", "America/New_York"):
-        for op in (["remove"], ["link"], ["link", "--soft"]):
+    combos = [(tz, op, [], False) for tz in ("UTC", "Asia/Tokyo", "America/New_York") for op in (["remove"], ["link"], ["link", "--soft"])]
+    # a report made with a transform (the size check is switched off for it) and edits placed in the same second as the scan
+    combos = [("UTC", ["remove"], ["--transform", "cat"], False), ("UTC", ["link"], ["--transform", "cat"], False), ("UTC", ["remove"], [], True)] + combos
+    for tz, op, gargs, align in combos:
+        if True:
             for ename, edit in edits():
                 for member in ("a.bin", "b.bin", "c.bin"):
+                    if (gargs or align) and ename not in ("same-length rewrite", "delete and recreate with other content of the same length"):
+                        continue
                     d, root = fresh("c04b.")
                     env = dict(mkenv(d), TZ=tz)
                     try:
@@ -664,8 +680,11 @@ def c04_battery(binary):
                             old = time.time() - 1000
                             os.utime(p, (old, old))
                         rep = os.path.join(d, "rep.txt")
+                        if align:
+                            # start right after a second has begun, so that the scan and the edit fall into the same second
+                            time.sleep(1.02 - (time.time() % 1.0))
                         with open(rep, "wb") as f:
-                            subprocess.run([binary, "group", root], stdout=f, stderr=subprocess.PIPE, env=env, timeout=60)
+                            subprocess.run([binary, "group"] + gargs + [root], stdout=f, stderr=subprocess.PIPE, env=env, timeout=60)
                         edit(os.path.join(root, member))
                         before = inventory(root)
                         with open(rep, "rb") as f:
@@ -677,7 +696,7 @@ def c04_battery(binary):
                                 continue
                             now = after.get(p, "gone")
                             if now != content and content not in kept:
-                                devs.append({"tz": tz, "cmd": " ".join(op), "edit": "%s of %s after `group`" % (ename, member),
+                                devs.append({"tz": tz, "cmd": " ".join(op), "group_options": gargs, "edit": "%s of %s right after `group`" % (ename, member),
                                              "lost": "the content %r.. of %s is stored nowhere after the dedupe command" % (content[:12], os.path.basename(p))})
                     finally:
                         shutil.rmtree(d, ignore_errors=True)
